@@ -363,7 +363,8 @@ again:
 		nextchar(s);
 		if (s->chr != '.') {
 			ungetc(s->chr, s->file);
-			s->loc = oldloc;
+			/* keep line breaks of splices read in between */
+			s->loc.col = s->loc.line == oldloc.line ? oldloc.col : 0;
 			s->chr = '.';
 			return TPERIOD;
 		}
